@@ -87,6 +87,20 @@ struct RB_ : state_machine_def<RB_> {
   template<class F,class Ev> void no_transition(Ev const&,F&,int){ g_log += "NT "; }
 };
 typedef msm::back::state_machine<RB_, msm::back::queue_container_circular> RB;
+// the same for the DEFERRED queue: full ring, and the occurrence being re-offered is deferred again (pushed while it is dispatched); it must stay
+// alive and unchanged for the rest of its dispatch, and no pending occurrence may be lost (C20, C05)
+struct job { int n; int* alive; job(int n_=0,int* a=nullptr):n(n_),alive(a){ if(alive) ++*alive; } job(job const& o):n(o.n),alive(o.alive){ if(alive) ++*alive; } ~job(){ if(alive) --*alive; n = -1; } };
+struct open_ {}; struct later {};
+struct RD_ : state_machine_def<RD_> {
+  typedef int activate_deferred_events;
+  // Gate defers every job AGAIN (state deferral): each occurrence is pushed back into the full ring while it is being re-offered
+  struct Hold : state<> { typedef mpl::vector<job> deferred_events; }; struct Gate : state<> { typedef mpl::vector<job> deferred_events; }; struct Work : state<> {};
+  struct Do { template<class F,class A,class B> void operator()(job const& j,F&,A&,B&){ g_log += "job" + std::to_string(j.n) + " "; } };
+  typedef Hold initial_state; int* alive = nullptr;
+  struct transition_table : mpl::vector< Row<Hold,open_,Gate,none,none>, Row<Gate,later,Work,none,none>, Row<Work,job,none,Do,none> > {};
+  template<class F,class Ev> void no_transition(Ev const&,F&,int){ g_log += "NT "; }
+};
+typedef msm::back::state_machine<RD_, msm::back::queue_container_circular> RD;
 #endif
 // bounded drain over events that are NOT handled (no transition / guard rejects): each dispatched event uses up one unit of the budget (C04)
 #if IS_MP11
@@ -216,6 +230,12 @@ int main(int argc, char** argv) {
 #if defined(CFG_back)
   { int alive = 0; { RB m; m.alive = &alive; m.get_message_queue().set_capacity(2); m.start(); g_log.clear(); m.process_event(kick()); }
     report("circular-queue.event-under-dispatch-stays-alive", g_log == "tick1 tick2 tick3 " && alive == 0, "C20,C04", "log=[" + g_log + "] live-events-after-destruction=" + std::to_string(alive)); }
+  { int alive = 0; { RD m; m.alive = &alive; m.get_deferred_queue().set_capacity(3); m.start(); g_log.clear();
+      m.process_event(job(1, &alive)); m.process_event(job(2, &alive)); m.process_event(job(3, &alive));     // the ring is full
+      m.process_event(open_());                                                                                  // re-offered in Gate: each is deferred again while dispatched
+      m.process_event(later()); }                                                                                // Work consumes them
+    const bool ok = g_log == "job1 job2 job3 " && alive == 0;
+    report("circular-deferred-queue.occurrence-re-deferred-while-dispatched-stays-alive", ok, "C20,C05", "log=[" + g_log + "] live-events-after-destruction=" + std::to_string(alive)); }
 #endif
 #if IS_MP11
   { BU m; m.start(); g_tk_next = 0; g_tk_bad = 0; m.enqueue_event(burst()); const size_t n1 = m.process_event_pool(1); const size_t n2 = m.process_event_pool();
